@@ -406,9 +406,13 @@ func finish(prop, tier string, seed uint64, nw int, outs []*workerOut, nRace int
 		"wall_s":     wall,
 		"violations": nviol,
 	}
-	os.MkdirAll(filepath.Join(verifDir, "evidence"), 0o755)
+	edir := filepath.Join(verifDir, "evidence")
+	if v := os.Getenv("VERIF_EVIDENCE_DIR"); v != "" {
+		edir = v // runs against scratch clones (mutants) must not overwrite the real evidence
+	}
+	os.MkdirAll(edir, 0o755)
 	b, _ := json.MarshalIndent(ev, "", " ")
-	if err := os.WriteFile(filepath.Join(verifDir, "evidence", prop+".json"), b, 0o644); err != nil {
+	if err := os.WriteFile(filepath.Join(edir, prop+".json"), b, 0o644); err != nil {
 		infra("writing evidence: %v", err)
 	}
 	fmt.Printf("%s %s: runs=%d nontrivial=%d distinct=%d steps=%d preemptions=%d sim=%.0fs wall=%.1fs (build %.1fs) truncated=%d\n",
